@@ -269,7 +269,18 @@ def replay_threadpool(prop, result, fresh, wd, info):
             info['native'] = {'schedule': 'worker held between its predicate check and its wait while stop() runs (shim condition_variable hook)',
                               'outcome': 'CONFIRMED', 'output': o.strip()[-300:]}
             return True
-    info['native'] = {'outcome': 'NOT-REPRODUCED', 'tried': 'stop() racing with a worker in the check-then-block window'}
+    # task ownership (C07): real threads, every task records its life events
+    exe2 = os.path.join(wd, 'tp_tasks_replay')
+    srcs = [os.path.join(REPO, 'src', 'threading', f) for f in ('ThreadPool.cpp', 'Thread.cpp', 'Runnable.cpp')]
+    rc, out = _run(['g++', '-std=c++20', '-g', '-O0', '-I', os.path.join(REPO, 'include'), os.path.join(ROOT, 'replay', 'tp_tasks_replay.cpp')] + srcs + ['-o', exe2, '-pthread'], timeout=600)
+    if rc == 0:
+        for mode in ('stop', 'clear'):
+            for attempt in range(2):
+                rc, o = _run(['timeout', '40', exe2, mode], timeout=60)
+                if 'CONFIRMED' in o:
+                    info['native'] = {'schedule': 'tp_tasks_replay ' + mode + ' (one busy worker, three queued tasks, then ' + mode + '())', 'outcome': 'CONFIRMED', 'output': o.strip()[-300:]}
+                    return True
+    info['native'] = {'outcome': 'NOT-REPRODUCED', 'tried': 'stop() racing with a worker in the check-then-block window; stop()/clear() with a busy worker and queued tasks'}
     return False
 
 
